@@ -59,6 +59,16 @@ func (t *topGen) emit(kind, s string) {
 	t.kinds[kind]++
 	t.stmts = append(t.stmts, s)
 }
+
+// reuseName: a name that was the header variable of a block statement (whose body declared a local of its own) is
+// declared again as a top-level variable, assigned and read: the block's names must be gone when the block ends,
+// in one Eval of the whole program just as in successive Evals
+func (t *topGen) reuseName(n string) {
+	t.emit("block header name reused by a later top-level variable", n+" := "+t.intE(1, nil)+";")
+	t.declare(n, "int")
+	t.emit("x = e", n+" = "+n+" + 1;")
+	t.emit("println", "println("+n+");")
+}
 func (t *topGen) of(typ string) []string {
 	var res []string
 	for _, v := range t.vars {
@@ -435,7 +445,16 @@ func (t *topGen) stmt() {
 	case k < 19:
 		if r.chance(40) {
 			l := t.fresh("t")
-			t.emit("if (with init)", "if "+l+" := "+t.intE(1, nil)+"; "+l+" > "+fmt.Sprint(r.intn(8))+" { "+t.body(2, []string{l}, false)+" } else { "+t.body(1, []string{l}, false)+" };")
+			body := t.body(2, []string{l}, false)
+			reuse := r.chance(40)
+			if reuse {
+				l2 := t.fresh("l")
+				body = l2 + " := " + l + " + 1; println(" + l2 + "); " + body
+			}
+			t.emit("if (with init)", "if "+l+" := "+t.intE(1, nil)+"; "+l+" > "+fmt.Sprint(r.intn(8))+" { "+body+" } else { "+t.body(1, []string{l}, false)+" };")
+			if reuse {
+				t.reuseName(l)
+			}
 		} else if r.chance(50) {
 			t.emit("if", "if "+t.boolE(1, nil)+" { "+t.body(2, nil, false)+" };")
 		} else {
@@ -443,7 +462,16 @@ func (t *topGen) stmt() {
 		}
 	case k < 21:
 		i := t.fresh("i")
-		t.emit("for", "for "+i+" := 0; "+i+" < "+fmt.Sprint(1+r.intn(4))+"; "+i+"++ { "+t.body(2, []string{i}, true)+" };")
+		body := t.body(2, []string{i}, true)
+		reuse := r.chance(40)
+		if reuse {
+			l := t.fresh("l")
+			body = l + " := " + i + " * 2; println(" + l + "); " + body
+		}
+		t.emit("for", "for "+i+" := 0; "+i+" < "+fmt.Sprint(1+r.intn(4))+"; "+i+"++ { "+body+" };")
+		if reuse {
+			t.reuseName(i)
+		}
 	case k < 23:
 		if r.chance(60) {
 			t.emit("switch (value)", "switch "+t.intE(1, nil)+" % 3 { case 0: "+t.body(1, nil, false)+"; case 1, 2: "+t.body(1, nil, false)+"; default: "+t.body(1, nil, false)+" };")
